@@ -26,6 +26,8 @@
     * printing a map with two or more entries (was: entries sorted by key) or with an undefined member
       (was: error);
   `round(x)` / `round(x, d)`: halves away from zero, exactly (the implementation was repaired to this).
+  {switch}: the matching case WHEREVER it stands, else the first {default}, else nothing (`renderCases`;
+  the implementation was repaired to this: a {default} written before a {case} no longer hides it).
 -/
 import SoyVerif.Model.Ast
 import SoyVerif.Model.Registry
@@ -587,6 +589,11 @@ def runDirs (dsem : Option DirSem) (env : Env) : List Directive → Val → Bool
         else (evalAll env d.args).bind fun args => (D.apply impl v args).bind fun v' =>
           runDirs dsem env ds v' (if cancel then false else esc)
 
+/-- the text of the matching case of a {switch}, else that of its {default} -/
+def orDefault (d : Unit → Out Bytes) : Option Bytes → Out Bytes
+  | some out => .val out
+  | none => d ()
+
 /-- the data a callee starts from -/
 structure CallEnv where
   entry : Binds            -- the data map as passed in (params included)
@@ -627,7 +634,9 @@ def renderCmd : Cmd → Env → ROut
         else (loopSpec (renderBlock body) env var (xs.length - 1) xs 0).bind fun out => .val (out, env)
       | _ => .error
   | .switch _ value cases, env =>
-    (eval env value).bind fun sv => (renderCases cases sv env).bind fun out => .val (out, env)
+    -- the matching case wherever it stands, else the first {default}, else nothing (`renderCases` below)
+    (eval env value).bind fun sv =>
+      ((renderMatch cases sv env).bind (orDefault fun _ => renderDefault cases env)).bind fun out => .val (out, env)
   | .call _ name allData data params, env =>
     match Registry.lookup reg name with
     | none => .error
@@ -663,12 +672,16 @@ def renderConds : CondList → Env → Out Bytes
     match cond with
     | none => renderBlock body env
     | some c => (eval env c).bind fun v => if truthy v then renderBlock body env else renderConds rest env
-def renderCases : CaseList → Val → Env → Out Bytes
-  | .nil, _, _ => .val []
+/-- the matching case, if any (a value-less case never matches) -/
+def renderMatch : CaseList → Val → Env → Out (Option Bytes)
+  | .nil, _, _ => .val none
   | .cons _ values body rest, sv, env =>
-    if values.isEmpty then renderBlock body env
-    else (matchAny env sv values).bind fun hit =>
-      if hit then renderBlock body env else renderCases rest sv env
+    (matchAny env sv values).bind fun hit =>
+      if hit then (renderBlock body env).bind fun out => .val (some out) else renderMatch rest sv env
+/-- the first {default} (value-less case) -/
+def renderDefault : CaseList → Env → Out Bytes
+  | .nil, _ => .val []
+  | .cons _ values body rest, env => if values.isEmpty then renderBlock body env else renderDefault rest env
 /-- the call's params, evaluated / rendered in the caller's environment (later ones first in the result) -/
 def renderParams : ParamList → Env → Out Binds
   | .nil, _ => .val []
@@ -695,6 +708,13 @@ def renderPh : MsgPhBody → Env → ROut
   | .htmlTag _ text, env => .val (text, env)
   | .cmd c, env => renderCmd c env
 end
+
+/-- {switch}: the first case one of whose values equals the switch value, WHEREVER it stands (the cases
+    in order, the values of each in order, stopping at the first match); when no case matches, the first
+    {default}; when there is none, nothing -/
+def renderCases (cs : CaseList) (sv : Val) (env : Env) : Out Bytes :=
+  (renderMatch reg hasBundle escape entry call dsem cs sv env).bind
+    (orDefault fun _ => renderDefault reg hasBundle escape entry call dsem cs env)
 end
 
 /-- is autoescaping on for the template? (its own attribute, else the namespace's, else on) -/
